@@ -81,13 +81,22 @@ def run(facts, cg=None):
             finding('R-SEEDOUT', b, 'missing', 'the clone command never re-orders the output in place')
         for kind, loc, guard in r.violations:
             finding('R-SEEDOUT', b, 'bypass', 'a success path with --seed-output=%s does not reuse the prior output (its chunks would be fetched again)' % guard)
-        # ---------------- R-SIZECHECK: on a block device the size comparison precedes anything that may write
         writer_bodies = {x.id for x in facts.bodies.values() if x.q.endswith('CloneOutput::write_offset')}
         def may_write(b_, bi, t):
             d = t['callee'].get('rdef') or t['callee'].get('def')
             if d in facts.bodies:
                 return bool(cg.reachable([d], rta=False) & writer_bodies)
             return False
+        # ---------------- R-SEEDOUT(fresh): with --seed-output nothing writes to the output between its scan and the
+        #                  re-ordering that consumes the scan (the planned copies read what the scan saw at those offsets)
+        r = GuardedStep(b, is_reorder, guard_from_bool_field(T, 'seed_output'), bypass_value=False,
+                        also_at=lambda b_, bi, t: not is_reorder(b_, bi, t) and may_write(b_, bi, t))
+        Explorer(b, r).run()
+        for kind, loc, guard in r.violations:
+            if kind == 'before':
+                finding('R-SEEDOUT', b, 'write-before-reorder', 'with --seed-output the output may be written at %s before it was re-ordered in place: '
+                        'the scan the re-ordering works from is stale (chunks it wants to move may be overwritten, in-place chunks rewritten)' % loc)
+        # ---------------- R-SIZECHECK: on a block device the size comparison precedes anything that may write
         size_cmp = set()
         for bi in b.live:
             for st in b.blocks[bi]['stmts']:
